@@ -205,7 +205,7 @@ def _run(ctx, replay):
     impl_stats = []
     if not replay:
         for mod in (plan.get("impl_thorough", []) if tier == "thorough" and plan.get("impl_thorough") else plan.get("impl", [])):
-            st, cex = vlib.tlc_impl_cex(ctx, mod, timeout=2400 if tier == "thorough" else 900)
+            st, cex = vlib.tlc_impl_cex(ctx, mod, timeout=3600 if tier == "thorough" else 900)
             impl_stats.append(st)
             states += st["distinct"]
             transitions += st["states"]
